@@ -1,7 +1,7 @@
 (* Run.v — entry point used by the extracted driver and by the in-Coq
    cross-check: one case (as written by the harness) and the implementation's
    observation in, the model's observation and the spec verdicts out. *)
-From Model Require Import Str Sexp Http Cors Template Table Curly DetectRoute Jsr311 Router.
+From Model Require Import Str Sexp Http Cors Template Table Curly DetectRoute Jsr311 Router Options.
 From Spec Require Import CorsSpec RouteSpec.
 
 Definition verdict (name : string) (b : bool) : sexp := Lst [A (L name); of_bool b].
@@ -13,13 +13,20 @@ Definition impl_hvalues (k : str) (acl : sexp) : list str :=
   concat (map (fun row => if str_eqb (sx_str (sx_nth 0 row)) k then sx_strs (sx_nth 1 row) else [])
               (sx_list acl)).
 
-Definition run_cors (c impl : sexp) : sexp :=
-  let O := sx_oracles (sx_nth 0 c) in
-  let cfg := sx_cors (sx_nth 1 c) in
-  let computed := sx_strs (sx_nth 2 c) in
-  let req := sx_request (sx_nth 3 c) in
+(* verdict lists of several requests are combined name-wise by conjunction *)
+Fixpoint and_verdicts (a b : list sexp) : list sexp :=
+  match a, b with
+  | x :: a', y :: b' => Lst [sx_nth 0 x; of_bool (sx_bool (sx_nth 1 x) && sx_bool (sx_nth 1 y))] :: and_verdicts a' b'
+  | _, _ => a
+  end.
+
+(* one request of a sequence served by one filter value *)
+Definition run_cors_one (O : oracles) (cfg : cors_cfg) (t : table) (req : request) (impl : sexp)
+  : sexp * list sexp * string :=
+  let computed := compute_allowed_methods O t (rq_path req) in
   let origin := hget req H_Origin in
   let '(hs, pass) := cors_decide O cfg computed req in
+  let routed_ok := match route_request O t req with RInvoke _ _ _ => true | _ => false end in
   let acl := sx_nth 0 impl in
   let invoked := sx_bool (sx_nth 1 impl) in
   let twin := sx_bool (sx_nth 2 impl) in
@@ -33,20 +40,45 @@ Definition run_cors (c impl : sexp) : sexp :=
                     else if negb pre then "actual"
                     else if granted then "preflight-granted" else "preflight-refused"
              end%string in
-  Lst [ Lst [canon_headers hs; of_bool pass];
-        Lst [ verdict "c08_grant_only_if_allowed" (implb any al);
-              verdict "c08_origin_echoed_once"
-                (implb any (match impl_hvalues H_ACAllowOrigin acl with
-                            | [v] => str_eqb v origin | _ => false end));
-              verdict "c08_credentials_iff_configured"
-                (implb any (Bool.eqb (negb (Nat.eqb (List.length (impl_hvalues H_ACAllowCredentials acl)) 0))
-                                     (c_cookies cfg)));
-              verdict "c08_transparent_when_not_allowed" (implb (negb al) (twin && negb any));
-              verdict "c09_preflight_answered_by_filter" (implb (al && pre) (negb invoked));
-              verdict "c09_preflight_grant_iff_allowed"
-                (implb (al && pre) (Bool.eqb any granted));
-              verdict "c09_actual_request_continues" (implb (al && negb pre) (invoked && any)) ];
-        A (L cls); Lst [] ].
+  ( Lst [canon_headers hs; of_bool (pass && routed_ok)],
+    [ verdict "c08_grant_only_if_allowed" (implb any al);
+      verdict "c08_origin_echoed_once"
+        (implb any (match impl_hvalues H_ACAllowOrigin acl with
+                    | [v] => str_eqb v origin | _ => false end));
+      verdict "c08_credentials_iff_configured"
+        (implb any (Bool.eqb (negb (Nat.eqb (List.length (impl_hvalues H_ACAllowCredentials acl)) 0))
+                             (c_cookies cfg)));
+      verdict "c08_transparent_when_not_allowed" (implb (negb al) (twin && negb any));
+      verdict "c09_preflight_answered_by_filter" (implb (al && pre) (negb invoked));
+      verdict "c09_preflight_grant_iff_allowed" (implb (al && pre) (Bool.eqb any granted));
+      verdict "c09_preflight_grant_headers"
+        (implb (al && pre && granted)
+               (match impl_hvalues H_ACAllowMethods acl, impl_hvalues H_ACAllowHeaders acl with
+                | [m], [h] => str_eqb h (hget req H_ACRequestHeaders)
+                              && sexp_eqb (of_strs (sort_strs (nodup_str (split comma m))))
+                                          (of_strs (sort_strs (nodup_str (match c_methods cfg with [] => computed | x => x end))))
+                | _, _ => false
+                end));
+      verdict "c09_actual_request_continues"
+        (implb (al && negb pre) (any && Bool.eqb invoked routed_ok
+                                 && Nat.eqb (List.length (impl_hvalues H_ACAllowOrigin acl)) 1)) ],
+    cls ).
+
+(* case: (oracles cfg table (request ...)) ; impl: ((acl invoked twin) ...) *)
+Definition run_cors (c impl : sexp) : sexp :=
+  let O := sx_oracles (sx_nth 0 c) in
+  let cfg := sx_cors (sx_nth 1 c) in
+  let t := sx_table (sx_nth 2 c) in
+  let reqs := map sx_request (sx_list (sx_nth 3 c)) in
+  let res := map (fun p => run_cors_one O cfg t (fst p) (snd p)) (combine reqs (sx_list impl)) in
+  let obs := map (fun x => fst (fst x)) res in
+  let vs := match res with
+            | [] => []
+            | x :: rest => fold_left (fun a y => and_verdicts a (snd (fst y))) rest (snd (fst x))
+            end in
+  let cls := match rev res with x :: _ => snd x | [] => "empty"%string end in
+  Lst [ Lst obs; Lst vs; A (L cls);
+        Lst [ verdict "sequence_longer_than_one" (Nat.ltb 1 (List.length reqs)) ] ].
 
 (* ---- domain "route" (C01 C02 C03 C04 C14 C17 C18) ----
    case: (oracles table request)
@@ -174,9 +206,74 @@ Definition run_slash (c impl : sexp) : sexp :=
         A (L cls);
         Lst [ verdict "in_scope" in_scope ] ].
 
+(* ---- domain "allow" (C17): (oracles table request)
+   impl: (((method status allow-set) ...) (status allow-list acam-list invoked) untouched) ---- *)
+Definition with_method (req : request) (m : str) : request :=
+  {| rq_method := m; rq_path := rq_path req; rq_headers := rq_headers req; rq_clen := rq_clen req |}.
+
+Definition status_of (x : routed) : Z :=
+  match x with
+  | RInvoke _ _ _ => 200 | RError E404 => 404 | RError (E405 _) => 405
+  | RError E415 => 415 | RError E406 => 406 | RPanic => 500
+  end%Z.
+
+Definition set_eqb (a b : list str) : bool :=
+  forallb (fun x => mem x b) a && forallb (fun x => mem x a) b.
+
+(* a path as clients normally send it: leading slash, no empty segment except one trailing *)
+Definition clean_path (p : str) : bool :=
+  match p with
+  | c :: p' =>
+      Ascii.eqb c slash &&
+      match rev (split slash p') with
+      | [] => true
+      | _ :: init => forallb (fun s => negb (str_eqb s [])) init
+      end
+  | [] => false
+  end.
+
+Definition roots_matching (O : oracles) (t : table) (p : str) : nat :=
+  List.length (filter (fun w => match jsr_match O (pe_toks (path_expression (s_root w))) p with
+                                | Some _ => true | None => false end) (t_services t)).
+
+Definition run_allow (c impl : sexp) : sexp :=
+  let O := sx_oracles (sx_nth 0 c) in
+  let t := sx_table (sx_nth 1 c) in
+  let req := sx_request (sx_nth 2 c) in
+  let probes := sx_list (sx_nth 0 impl) in
+  let options := sx_nth 1 impl in
+  let untouched := sx_bool (sx_nth 2 impl) in
+  let universe := map (fun p => sx_str (sx_nth 0 p)) probes in
+  (* model *)
+  let m_probe m := let x := route_request O t (with_method req m) in
+                   Lst [A m; I (status_of x);
+                        of_strs (sort_strs (match x with RError (E405 a) => a | _ => [] end))] in
+  let computed := compute_allowed_methods O t (rq_path req) in
+  let m_obs := Lst [Lst (map m_probe universe); Lst [I 200; of_strs computed; of_strs computed; I 0]; I 1] in
+  (* spec on the implementation's data *)
+  let i_status p := sx_int (sx_nth 1 p) in
+  let routable := map (fun p => sx_str (sx_nth 0 p))
+                      (filter (fun p => negb (Z.eqb (i_status p) 404) && negb (Z.eqb (i_status p) 405)) probes) in
+  let v405 := forallb (fun p => implb (Z.eqb (i_status p) 405) (set_eqb (sx_strs (sx_nth 2 p)) routable)) probes in
+  let vopt := set_eqb (sx_strs (sx_nth 1 options)) routable && set_eqb (sx_strs (sx_nth 2 options)) routable in
+  let vself := Z.eqb (sx_int (sx_nth 3 options)) 0 && untouched in
+  let multi := Nat.ltb 1 (roots_matching O t (rq_path req)) in
+  let unclean := negb (clean_path (rq_path req)) in
+  let cls := (if existsb (fun p => Z.eqb (i_status p) 405) probes then "has-405"
+              else if negb (Nat.eqb (List.length routable) 0) then "all-routable" else "404")%string in
+  Lst [ m_obs;
+        Lst [ verdict "c17_405_allow_truth" v405;
+              verdict "c17_options_truth" vopt;
+              verdict "c17_options_answers_itself" vself ];
+        A (L cls);
+        Lst [ verdict "kf:K-C17-1" multi;
+              verdict "kf:K-C17-2" (unclean && match t_router t with Curly => true | Jsr311 => false end);
+              verdict "single_root_and_clean" (negb multi && negb unclean) ] ].
+
 Definition run_case (c impl : sexp) : sexp :=
   let dom := sx_str (sx_nth 0 c) in
   if str_eqb dom (L "cors") then run_cors (sx_nth 1 c) impl
   else if str_eqb dom (L "route") then run_route (sx_nth 1 c) impl
   else if str_eqb dom (L "slash") then run_slash (sx_nth 1 c) impl
+  else if str_eqb dom (L "allow") then run_allow (sx_nth 1 c) impl
   else Lst [A (L "unknown-domain")].
